@@ -71,6 +71,52 @@ SHAPES["L250"] = [("a" * 250,), ("d" * 250, "b" * 250), ("a" * 249 + "b",),
                   ("e",)]
 
 
+# Contents whose digests happen to be well-formed UTF-8 text: a bencode
+# decoder that hands text-like byte strings back as `str` answers differently
+# for these hash fields than for (almost) all others.  Found by a plain
+# counter search; verified on every use (text_like_witnesses).
+_TEXT_SHA1 = [b"payload-4917\n", b"w43118", b"w79774", b"w197821"]
+_TEXT_SHA256 = [b"payload-15246583\n"]
+
+
+def _is_text(b):
+    try:
+        b.decode("utf-8")
+        return True
+    except UnicodeDecodeError:
+        return False
+
+
+def text_like_witnesses():
+    """(contents whose SHA-1 is valid UTF-8, contents whose SHA-256 is)."""
+    for w in _TEXT_SHA1:
+        if not _is_text(hashlib.sha1(w).digest()):
+            raise AssertionError("witness lost: " + repr(w))
+    for w in _TEXT_SHA256:
+        if not _is_text(hashlib.sha256(w).digest()):
+            raise AssertionError("witness lost: " + repr(w))
+    return list(_TEXT_SHA1), list(_TEXT_SHA256)
+
+
+def text_like_worlds():
+    """[(shape, sizes, cids)]: payloads whose v1 piece string / v2 pieces
+    roots are well-formed UTF-8 text (real scale, one piece)."""
+    s1, s256 = text_like_witnesses()
+    out = []
+    lit = lambda b: "lit:" + b.hex()
+    for w in s1:
+        out.append(("S1", [len(w)], [lit(w)]))
+        out.append(("D2", [1, len(w) - 1], [lit(w[:1]), lit(w[1:])]))
+        out.append(("D2n", [len(w) - 2, 2], [lit(w[:-2]), lit(w[-2:])]))
+    for x in s256:
+        out.append(("S1", [len(x)], [lit(x)]))
+        out.append(("D1", [len(x)], [lit(x)]))
+        out.append(("D2n", [len(x), 40000], [lit(x), 1]))
+        out.append(("D2n", [40000, len(x)], [1, lit(x)]))
+        out.append(("D3x", [len(x), len(x), 5], [lit(x), lit(x), 2]))
+    return out
+
+
 def nfiles(shape):
     return 1 if SHAPES[shape] is None else len(SHAPES[shape])
 
@@ -86,6 +132,11 @@ def content(seed, cid, length):
         return b""
     if cid == "zero":
         return bytes(length)          # all-zero content (creation checks only)
+    if isinstance(cid, str) and cid.startswith("lit:"):
+        data = bytes.fromhex(cid[4:])   # literal bytes (witness contents)
+        if len(data) != length:
+            raise ValueError("literal content of another length")
+        return data
     key = (seed, cid)
     buf = _BUF.get(key)
     if buf is None or len(buf) < length:
@@ -159,8 +210,10 @@ def write_file(path, data):
         f.write(data)
 
 
-def materialize(files, parent, name=ROOT_NAME, shape=None):
-    """Create parent/name as described by files [(rel, bytes)]; return its path."""
+def materialize(files, parent, name=ROOT_NAME, shape=None, hardlink=False):
+    """Create parent/name as described by files [(rel, bytes)]; return its path.
+    With hardlink=True, non-empty files with equal bytes are further names
+    (hard links) of one inode instead of separate files."""
     root = os.path.join(parent, name)
     for rel in EMPTY_DIRS.get(shape, ()):
         os.makedirs(os.path.join(root, *rel), exist_ok=True)
@@ -168,8 +221,15 @@ def materialize(files, parent, name=ROOT_NAME, shape=None):
         write_file(root, files[0][1])
         return root
     os.makedirs(root, exist_ok=True)
+    first = {}
     for rel, data in files:
-        write_file(os.path.join(root, *rel), data)
+        p = os.path.join(root, *rel)
+        if hardlink and data and data in first:
+            os.makedirs(os.path.dirname(p), exist_ok=True)
+            os.link(first[data], p)
+            continue
+        write_file(p, data)
+        first.setdefault(data, p)
     return root
 
 
